@@ -3,6 +3,7 @@
 package engines
 
 import (
+	"io"
 	"reflect"
 	"strconv"
 
@@ -96,8 +97,8 @@ func init() {
 }
 
 // newRealNetlink builds the real NetlinkClient on top of the simulated socket.
-func newRealNetlink(sock *simSocket, pid uint32, buf []byte) *libaudit.NetlinkClient {
-	return libaudit.NewVerifNetlinkClient(sock, pid, buf, nil)
+func newRealNetlink(sock *simSocket, pid uint32, buf []byte, resp io.Writer) *libaudit.NetlinkClient {
+	return libaudit.NewVerifNetlinkClient(sock, pid, buf, resp)
 }
 
 // setRealSeq fast-forwards the client's sequence counter.
